@@ -66,21 +66,36 @@ def run(ctx):
     # ---- R17.3 grid shape
     sm = prog.func(GEN, "Fourier._set_modes")
     site = GEN + "::Fourier._set_modes"
-    lc = [n for n in ast.walk(sm) if isinstance(n, ast.ListComp) and isinstance(n.elt, ast.Call) and ast.unparse(n.elt.func) == "np.arange"]
+    lcs = [n for n in ast.walk(sm) if isinstance(n, ast.ListComp) and any(isinstance(c, ast.Call) and ast.unparse(c.func) == "np.arange" for c in ast.walk(n.elt))]
     ok = False
+    exact = False
     detail = "np.arange list comprehension not found"
-    if len(lc) == 1 and len(lc[0].elt.args) == 3 and len(lc[0].generators) == 1:
-        g = lc[0].generators[0]
+    if len(lcs) == 1 and len(lcs[0].generators) == 1:
+        g = lcs[0].generators[0]
         d = ast.unparse(g.target)
-        start, stop, step = lc[0].elt.args
         dk = "self._delta_k[%s]" % d
         n_ = "mode_no[%s]" % d
-        s1, n1, d1 = signed_factors(start)
-        s2, n2, d2 = signed_factors(stop)
-        okshape = s1 == -1 and s2 == 1 and n1 == n2 == sorted([dk, n_]) and d1 == d2 and d1 in (["2.0"], ["2"])
-        ok = okshape and ast.unparse(step) == dk and ast.unparse(g.iter) == "range(dim)"
-        detail = "arange(%s, %s, %s) for %s in %s" % (ast.unparse(start), ast.unparse(stop), ast.unparse(step), d, ast.unparse(g.iter))
-    ctx.check(ok, "R17.3", site, "per axis the wave numbers are arange(-n/2*dk, n/2*dk, dk): integer multiples of dk over all dim axes: " + detail, "grid")
+        elt = lcs[0].elt
+        ar = [c for c in ast.walk(elt) if isinstance(c, ast.Call) and ast.unparse(c.func) == "np.arange"][0]
+        detail = "%s for %s in %s" % (ast.unparse(elt), d, ast.unparse(g.iter))
+        loop_ok = ast.unparse(g.iter) == "range(dim)"
+        if len(ar.args) == 3:
+            # arange(-n/2*dk, n/2*dk, dk): right skeleton, but the number of entries is not determined for a float step
+            s1, n1, d1 = signed_factors(ar.args[0])
+            s2, n2, d2 = signed_factors(ar.args[1])
+            ok = loop_ok and s1 == -1 and s2 == 1 and n1 == n2 == sorted([dk, n_]) and d1 == d2 and d1 in (["2.0"], ["2"]) and ast.unparse(ar.args[2]) == dk and elt is ar
+            exact = False
+        elif len(ar.args) == 2:
+            # integer index grid times the spacing: arange(-n/2, n/2) * dk
+            s1, n1, d1 = signed_factors(ar.args[0])
+            s2, n2, d2 = signed_factors(ar.args[1])
+            idx_ok = s1 == -1 and s2 == 1 and n1 == n2 == [n_] and d1 == d2 and d1 in (["2.0"], ["2"])
+            fs = signed_factors(elt)
+            ok = loop_ok and idx_ok and fs[0] == 1 and sorted(fs[1]) == sorted([ast.unparse(ar), dk]) and not fs[2]
+            exact = ok
+    ctx.check(ok, "R17.3", site, "per axis the wave numbers are the integer multiples -n/2 .. n/2-1 of dk over all dim axes: " + detail, "grid")
+    ctx.check(exact, "R17.3", site,
+              "the number of modes per axis is exactly mode_no (integer index grid; np.arange with a float step may return one element more, which makes the stored mode count odd)", "grid-count")
     asg = {ast.unparse(n.targets[0]): ast.unparse(n.value) for n in ast.walk(sm) if isinstance(n, ast.Assign)}
     ctx.check(asg.get("self._modes") == "generate_grid(modes)" and asg.get("self._mode_no") == "[len(m) for m in modes]", "R17.3", site,
               "mode mesh is the tensor grid of the per-axis wave numbers; mode count is taken from the grid actually built", "mesh")
